@@ -96,15 +96,18 @@ RANGE['allows_all'] = dict(ret='r', contract='''    requires rwf(*self), rwf(*ot
            (1, 'it1', 'rwf(*self), rwf(*other), bs_wf(*this), 0 <= it0.index@ < self.0@.len(), *this == self.0@[it0.index@ as int], forall|i: int, j: int| 0 <= i < it0.index@ && 0 <= j < other.0@.len() ==> !ballows_all(#[trigger] self.0@[i], #[trigger] other.0@[j]), forall|j: int| 0 <= j < it1.index@ ==> !ballows_all(*this, #[trigger] other.0@[j]),')])
 INV_OUT = '''rwf(*self), rwf(*other), swf(sets@),
         (sets@.len() > 0) == (exists|i: int, j: int| 0 <= i < it0.index@ && 0 <= j < other.0@.len() && boverlap(#[trigger] self.0@[i], #[trigger] other.0@[j])),
-        forall|v: VKey| #![trigger any_within(sets@, sets@.len() as int, v)] #![trigger rwithin(*other, v)] any_within(sets@, sets@.len() as int, v) <==> (any_within(self.0@, it0.index@ as int, v) && rwithin(*other, v)),'''
+        forall|v: VKey| #![trigger any_within(sets@, sets@.len() as int, v)] #![trigger rwithin(*other, v)] any_within(sets@, sets@.len() as int, v) <==> (any_within(self.0@, it0.index@ as int, v) && rwithin(*other, v)),
+        forall|v: VKey| #![trigger any_sat(sets@, sets@.len() as int, v)] any_sat(sets@, sets@.len() as int, v) <==> any_pair_sat(self.0@, it0.index@ as int, other.0@, 0, v),'''
 INV_IN = '''rwf(*self), rwf(*other), swf(sets@), bs_wf(*lefty), 0 <= it0.index@ < self.0@.len(), *lefty == self.0@[it0.index@ as int],
         (sets@.len() > 0) == ((exists|i: int, j: int| 0 <= i < it0.index@ && 0 <= j < other.0@.len() && boverlap(#[trigger] self.0@[i], #[trigger] other.0@[j]))
             || (exists|j: int| 0 <= j < it1.index@ && boverlap(*lefty, #[trigger] other.0@[j]))),
         forall|v: VKey| #![trigger any_within(sets@, sets@.len() as int, v)] #![trigger rwithin(*other, v)] any_within(sets@, sets@.len() as int, v) <==>
-            ((any_within(self.0@, it0.index@ as int, v) && rwithin(*other, v)) || (within(*lefty, v) && any_within(other.0@, it1.index@ as int, v))),'''
+            ((any_within(self.0@, it0.index@ as int, v) && rwithin(*other, v)) || (within(*lefty, v) && any_within(other.0@, it1.index@ as int, v))),
+        forall|v: VKey| #![trigger any_sat(sets@, sets@.len() as int, v)] any_sat(sets@, sets@.len() as int, v) <==> any_pair_sat(self.0@, it0.index@ as int, other.0@, it1.index@ as int, v),'''
 RANGE['intersect'] = dict(ret='r', contract='''    requires rwf(*self), rwf(*other),
     ensures rinter_post(*self, *other, r),''',
-    entry='broadcast use g_any;',
+    entry='''broadcast use g_any;
+    proof { assert forall|v: VKey| !any_pair_sat(self.0@, 0, other.0@, 0, v) by { lemma_any_pair_sat_zero(self.0@, other.0@, v); } }''',
     loops=[(0, 'it0', INV_OUT), (1, 'it1', INV_IN)],
     loop_entry=[(1, 'let ghost old_sets = sets@;')],
     loop_end=[(1, '''proof {
@@ -117,18 +120,33 @@ RANGE['intersect'] = dict(ret='r', contract='''    requires rwf(*self), rwf(*oth
             if sets@.len() > old_sets.len() { lemma_any_within_push(old_sets, sets@[old_sets.len() as int], v); }
             else { lemma_boverlap_none(*lefty, *righty, v); }
         }
+        assert forall|v: VKey| #![trigger any_sat(sets@, sets@.len() as int, v)] any_sat(sets@, sets@.len() as int, v) <==> any_pair_sat(self.0@, n0, other.0@, n1 + 1, v) by {
+            lemma_any_pair_sat_step(self.0@, n0, other.0@, n1, v);
+            if sets@.len() > old_sets.len() {
+                let b = sets@[old_sets.len() as int];
+                lemma_any_sat_push(old_sets, b, v);
+                if within(*lefty, v) && within(*righty, v) { lemma_gate_intersect(*lefty, *righty, b, v); }
+            } else { lemma_boverlap_none(*lefty, *righty, v); }
+        }
     }'''), (0, '''proof {
         let n0 = it0.index@ as int;
-        assert forall|v: VKey| #![trigger any_within(sets@, sets@.len() as int, v)] #![trigger rwithin(*other, v)] any_within(sets@, sets@.len() as int, v) <==> (any_within(self.0@, n0 + 1, v) && rwithin(*other, v)) by {
-            lemma_any_within_step(self.0@, n0, v);
+        assert forall|v: VKey| #![trigger any_sat(sets@, sets@.len() as int, v)] any_sat(sets@, sets@.len() as int, v) <==> any_pair_sat(self.0@, n0 + 1, other.0@, 0, v) by {
+            lemma_any_pair_sat_row(self.0@, n0, other.0@, v);
         }
     }''')])
 DINV0 = '''rwf(*self), rwf(*other), swf(predicates@),
+        it0.index@ == 0 ==> predicates@.len() == 0,
+        (self.0@.len() == 1 && other.0@.len() == 1 && it0.index@ == 1) ==> ((predicates@.len() == 0) <==> bdiff_none(self.0@[0], other.0@[0])),
         forall|v: VKey| #![trigger any_within(predicates@, predicates@.len() as int, v)] #![trigger rwithin(*other, v)] any_within(predicates@, predicates@.len() as int, v) <==> (any_within(self.0@, it0.index@ as int, v) && !rwithin(*other, v)),'''
 DINV1 = '''rwf(*self), rwf(*other), swf(predicates@), swf(remainders@), bs_wf(*lefty), 0 <= it0.index@ < self.0@.len(), *lefty == self.0@[it0.index@ as int],
+        it0.index@ == 0 ==> predicates@.len() == 0,
+        it1.index@ == 0 ==> remainders@.len() == 1 && remainders@[0] == *lefty,
+        (other.0@.len() == 1 && it1.index@ == 1) ==> ((remainders@.len() == 0) <==> bdiff_none(*lefty, other.0@[0])),
         forall|v: VKey| #![trigger any_within(predicates@, predicates@.len() as int, v)] #![trigger rwithin(*other, v)] any_within(predicates@, predicates@.len() as int, v) <==> (any_within(self.0@, it0.index@ as int, v) && !rwithin(*other, v)),
         forall|v: VKey| #![trigger any_within(remainders@, remainders@.len() as int, v)] any_within(remainders@, remainders@.len() as int, v) <==> (within(*lefty, v) && !any_within(other.0@, it1.index@ as int, v)),'''
 DINV2 = '''rwf(*other), swf(remainders@), swf(next@), bs_wf(*righty),
+        it2.index@ == 0 ==> next@.len() == 0,
+        (remainders@.len() == 1 && it2.index@ == 1) ==> ((next@.len() == 0) <==> bdiff_none(remainders@[0], *righty)),
         forall|v: VKey| #![trigger any_within(next@, next@.len() as int, v)] any_within(next@, next@.len() as int, v) <==> (any_within(remainders@, it2.index@ as int, v) && !within(*righty, v)),'''
 RANGE['difference'] = dict(ret='r', contract='''    requires rwf(*self), rwf(*other),
     ensures rdiff_post(*self, *other, r),''',
